@@ -158,6 +158,7 @@ func install() {
 		if t == nil || t.aborting {
 			return nil
 		}
+		SiteHits[site]++
 		e.park(t, site, kind)
 		t.state = stInOp
 		t.inOp = true
@@ -185,6 +186,7 @@ func install() {
 		if e == nil || e.running == nil {
 			return nil
 		}
+		SiteHits[site]++
 		t := e.newTask(fmt.Sprintf("lib@%d", site), true)
 		t.site = site
 		t.phase = e.running.phase
@@ -200,6 +202,7 @@ func install() {
 		if e == nil || e.running == nil {
 			return nil
 		}
+		SiteHits[site]++
 		t := e.newTask(fmt.Sprintf("timer@%d", site), true)
 		t.site = site
 		t.phase = e.running.phase
@@ -233,6 +236,7 @@ func install() {
 		if e == nil {
 			return nil
 		}
+		SiteHits[site]++
 		p := make([]int, n)
 		for i := range p {
 			p[i] = i
